@@ -38,6 +38,9 @@ def main():
     rec = core.set_recorder(core.Recorder(prop))
     cfg = core.Cfg(prop, tier, seed, shard, nshards, deadline)
     rec.arm("interpreter:python -O (asserts stripped)" if sys.flags.optimize else "interpreter:default")
+    from .workloads import drive as _drive
+
+    _drive.EXPIRED[0] = cfg.out_of_time
     from . import coverage
 
     cov_on = coverage.start(load.REPO)
